@@ -19,7 +19,8 @@ RULE = ('cells = (20 filter pairs, J in 1..4, HxW from 2..37 incl. odd/non-multi
         'pyramid shapes taken from the reference forward; per cell dense random pyramids + a one-hot '
         'coefficient batch vs the NumPy inverse, and absent subsets of {lowpass, levels} in three encodings '
         'vs explicit zeros; distinct by (cell, input kind, absent mask, encoding); non-trivial when the '
-        'pyramid is not all-zero')
+        'pyramid is not all-zero'
+        '; a level that is non-zero but sums to exactly zero (checkerboard) judged against the affine mean of the reference on two dense pyramids; pyramids in units of 1e-10')
 ASSUMPTIONS = ['dtcwt 0.14 Transform2d.inverse is the specification for full pyramids',
                'absent entries are specified by the statement itself: same result as explicit zeros', 'float64']
 TIMEOUT = {'quick': 900, 'thorough': 3300}
